@@ -8,7 +8,7 @@ use vcommon::report::*;
 use vcommon::v::Got;
 
 pub type Extra = (usize, usize); // scenario cursor: (payload index, offset)
-pub type Key = (Vec<u8>, Option<u8>, Vec<u8>, Option<u8>, Extra);
+pub type Key = (Vec<u8>, Option<u8>, Vec<u8>, Option<u8>, Extra, u64);
 
 pub struct Scenario {
     pub name: &'static str,
@@ -93,7 +93,7 @@ pub fn step_and_compare(sc: &Scenario, hist: &[Op], op: &Op, extra: &Extra, next
             }
         }
     }
-    Ok((obs.buf, obs.ty, st.acc.clone(), st.ty, *next))
+    Ok((obs.buf, obs.ty, st.acc.clone(), st.ty, *next, obs.hidden))
 }
 
 pub struct Explored {
@@ -107,7 +107,7 @@ pub struct Explored {
 pub fn explore(run: &Run, sc: &Scenario, sink: &mut Sink) -> Explored {
     let init_extra: Extra = (0, 0);
     let mut seen: HashSet<Key> = HashSet::new();
-    seen.insert((vec![], None, vec![], None, init_extra));
+    seen.insert((vec![], None, vec![], None, init_extra, fnv(0, format!("{:?}", TlsRecordsParser::default()).as_bytes())));
     let mut frontier: Vec<(Vec<Op>, Extra)> = vec![(vec![], init_extra)];
     let mut transitions = 0usize;
     let mut depth = 0usize;
